@@ -98,6 +98,10 @@ Qed.
 Lemma prov_ty_conv Δ n t t' : prov_ty Δ n t -> teq t t' -> prov_ty Δ n t'.
 Proof. intros [c [t0 [H1 [H2 H3]]]] Ht. exists c, t0. eauto. Qed.
 
+Lemma proc_typed_single Δ n s rs b nx :
+  prov_ty Δ n s -> typed Δ ∅ None rs s b -> proc_typed Δ (Proc [n] b nx).
+Proof. intros Hp Hb. exists s, rs. simpl. split; [discriminate|]. split; auto. Qed.
+
 Lemma chan_ty_is_chan Δ n A A' : chan_ty Δ n A -> teq A A' -> is_chan_of Δ n A'.
 Proof.
   intros H Ht. apply client_closed in H. destruct H as [H1 [c [t' [H2 [H3 H4]]]]].
@@ -180,7 +184,7 @@ Lemma call_typed Δ rs s fn args pt :
   typed Δ ∅ None rs s (FCall fn args pt) ->
   exists b s' rs', call_body F fn args = Some b /\ teq s' s /\ typed Δ ∅ None rs' s' b.
 Proof.
-  intros H. inversion H as [| | | | | | | | | | | | |Γ sh rs0 s0 fn0 args0 pt0 fd tf Hg Hft Ht Hargs| | | | |]; subst.
+  intros H. inversion H as [| | | | | | | | | | | | |Γ sh rs0 s0 fn0 args0 pt0 fd tf Hg Hft Ht Hargs| | | | | |]; subst.
   pose proof (get_function_In _ _ _ _ Hg) as Hin.
   pose proof HF as HF'. unfold funs_typed in HF'. rewrite Forall_forall in HF'. specialize (HF' fd Hin).
   destruct HF' as [tf' [Hft' [Hb [Hnd [Hnt Hbody]]]]]. rewrite Hft in Hft'. injection Hft' as <-.
@@ -347,6 +351,9 @@ Proof.
   - (* ShiftC *)
     match goal with IH : forall n, In n (free_names k) -> _, Hin : In _ (free_names k) |- _ => apply IH in Hin end.
     eapply (free_unbind _ _ _ _ _ x); eauto.
+  - (* Split *)
+    match goal with IH : forall n, In n (free_names k) -> _, Hin : In _ (free_names k) |- _ => apply IH in Hin end.
+    eapply (free_unbind _ _ _ _ _ x); eauto. eapply (free_unbind _ _ _ _ _ y); eauto.
   - (* Print *) eauto.
   - (* brs_p nil *) auto.
   - (* brs_p cons *)
@@ -405,9 +412,9 @@ Proof.
       split; [simpl; lia|]. split; [rewrite Hn; simpl; lia|]. split; auto. split; auto.
       constructor; auto. simpl.
       eapply proc_typed_weaken; eauto.
-      eexists _, t, {[ ident cl ]}. split; [reflexivity|]. split.
-      * exists k, t. simpl. rewrite lookup_insert. auto.
-      * simpl. eapply T_Fwd.
+      eapply proc_typed_single.
+      * exists k, t. simpl. rewrite lookup_insert. split; auto.
+      * eapply (T_Fwd _ _ _ _ _ _ {[ ident cl ]}).
         -- split; auto. left. simpl. split; auto. set_solver.
         -- eapply client_ty_weaken; eauto.
 Qed.
@@ -421,7 +428,13 @@ Proof.
 Qed.
 
 (* ------------------------------------------------------------------ what a typed process does next *)
-Definition own_chan (p : proc) (k : cid) : Prop := k ∈ cids_of (pr_provs p).
+(* k is THE provider channel of p (a process that acts on its provider side has exactly one) *)
+Definition own_chan (p : proc) (k : cid) : Prop := exists n, pr_provs p = [n] /\ chan n = Some k.
+
+Lemma own_chan_provides p k : own_chan p k -> k ∈ cids_of (pr_provs p).
+Proof. intros [n [-> Hk]]. simpl. rewrite Hk. clear. set_solver. Qed.
+Lemma own_chan_only p k k' : own_chan p k -> k' ∈ cids_of (pr_provs p) -> k' = k.
+Proof. intros [n [-> Hk]]. simpl. rewrite Hk. clear. set_solver. Qed.
 
 (* which side of the channel the process acts on *)
 Definition send_side (p : proc) (k : cid) (m : msg) : Prop :=
@@ -441,7 +454,11 @@ Inductive act_view (Δ : gmap cid sty) (p : proc) : action -> Prop :=
 | AV_internal :
     (forall self, ns_free Δ self p ->
        exists e Δ', internal_effect Async F self p = EOk e /\ eff_typed Δ Δ' self p e) ->
-    act_view Δ p AInternal.
+    act_view Δ p AInternal
+| AV_dup :
+    (forall self, ns_free Δ self p ->
+       exists e Δ', dup_effect self p = EOk e /\ eff_typed Δ Δ' self p e) ->
+    act_view Δ p ADup.
 
 Lemma pol_from_head Tk X u pl : teq Tk X -> whd X u -> polarity_of u = Ok pl -> pol_of_ty D Tk pl.
 Proof.
@@ -506,13 +523,13 @@ Hypothesis HT0 : Δ !! k0 = Some T0.
 Local Notation P b := (Proc [n] b nx).
 
 Lemma self_typed s rs b : teq T0 s -> typed Δ ∅ None rs s b -> proc_typed Δ (P b).
-Proof. intros Hs Hb. exists n, s, rs. split; auto. split; auto. exists k0, T0. auto. Qed.
+Proof. intros Hs Hb. eapply proc_typed_single; eauto. exists k0, T0. auto. Qed.
 
 Lemma self_prov s : teq T0 s -> prov_ty Δ n s.
 Proof. intros Hs. exists k0, T0. auto. Qed.
 
 Lemma own_k0 b : own_chan (P b) k0.
-Proof. unfold own_chan. simpl. rewrite Hk0. set_solver. Qed.
+Proof. exists n. simpl. auto. Qed.
 
 Ltac in_body :=
   simpl; unfold name_chans;
@@ -575,11 +592,12 @@ Qed.
 
 (* the process adopts the providers of a negative forward *)
 Lemma fwd_request_ok self s rs b m :
-  teq T0 s -> typed Δ ∅ None rs s b -> (exists q, m_provs m = [q] /\ prov_ty Δ q T0) ->
+  teq T0 s -> typed Δ ∅ None rs s b -> m_provs m <> [] -> Forall (fun q => prov_ty Δ q T0) (m_provs m) ->
   eff_typed Δ Δ self (P b) (Eff (Continue (set_provs_body (P b) (m_provs m) b)) [] [] (cids_of [n]) []).
 Proof.
-  intros Hs Hb [q [Hq Hp]]. apply eff_typed_cont; auto. simpl. rewrite Hq.
-  exists q, s, rs. split; auto. split; auto. eapply prov_ty_conv; eauto.
+  intros Hs Hb Hne Hp. apply eff_typed_cont; auto. simpl.
+  exists s, rs. simpl. split; auto. split; auto.
+  eapply Forall_impl; [|exact Hp]. intros q Hq. simpl in Hq. eapply prov_ty_conv; [exact Hq|exact Hs].
 Qed.
 
 Lemma act_SendP s rs to pay cont A B md :
@@ -623,7 +641,7 @@ Proof.
     eexists. exists Δ. split; [reflexivity|]. apply eff_typed_cont; auto. simpl.
     match goal with Hp : RtTyping.prov_ty _ _ (m_c2 m) _ |- _ =>
       destruct (prov_ty_conv _ _ _ _ Hp Hb) as [c2 [t2 [Hc2 [Ht2 Hq2]]]] end.
-    exists (m_c2 m), B, (rs ∖ {[ident pay]} ∖ {[ident cont]} ∪ {[""]}). split; auto. split; [exists c2, t2; auto|]. simpl.
+    apply (proc_typed_single _ (m_c2 m) B (rs ∖ {[ident pay]} ∖ {[ident cont]} ∪ {[""]})); [exists c2, t2; auto|].
     apply tshadow; [apply Hbc | apply lookup_empty | ].
     apply (tsubst _ _ _ _ _ _ _ _ A); [apply Hbp | eapply chan_ty_is_chan; eauto | congruence | set_solver | exact Hk].
   - (* RFWD *) eexists. exists Δ. split; [reflexivity|]. eapply fwd_request_ok; eauto.
@@ -695,7 +713,7 @@ Proof.
     eexists. exists Δ. split; [reflexivity|]. apply eff_typed_cont; auto. simpl.
     match goal with Hp : RtTyping.prov_ty _ _ (m_c1 m) _ |- _ =>
       destruct (prov_ty_conv _ _ _ _ Hp Hteq') as [c1 [t1 [Hc1 [Ht1 Hq1]]]] end.
-    exists (m_c1 m), A', (rs ∖ {[ident pay]} ∪ {[""]}). split; auto. split; [exists c1, t1; auto|]. simpl.
+    apply (proc_typed_single _ (m_c1 m) A' (rs ∖ {[ident pay]} ∪ {[""]})); [exists c1, t1; auto|].
     apply tshadow; [apply Hbd | exact Hfr | exact Hk].
   - (* RFWD *) eexists. exists Δ. split; [reflexivity|]. eapply fwd_request_ok; eauto.
 Qed.
@@ -738,11 +756,11 @@ Proof.
   split. { intros k' Hk'. destruct (decide (c = k')) as [<-|Hne]; [right; set_solver|]. rewrite lookup_insert_ne in Hk' by auto. auto. }
   split. { intros k' Hk'. apply elem_of_list_singleton in Hk'. subst k'. exists nx. split; auto; simpl; lia. }
   split; [simpl; lia|]. split.
-  - exists n, s, (rs ∖ {[ident x]}). split; auto. split; [eapply prov_ty_weaken; eauto; apply self_prov; auto|]. simpl.
+  - apply (proc_typed_single _ n s (rs ∖ {[ident x]})); [eapply prov_ty_weaken; eauto; apply self_prov; auto|].
     apply (tsubst _ _ _ _ _ _ _ _ A);
       [apply Hbx | split; simpl; auto; exists c, A; rewrite lookup_insert; auto | discriminate | set_solver
        | eapply typed_weaken; eauto].
-  - constructor; [|constructor]. simpl. exists cn, A, rs. split; auto. split.
+  - constructor; [|constructor]. simpl. apply (proc_typed_single _ cn A rs).
     + exists c, A. simpl. rewrite lookup_insert. auto.
     + eapply typed_weaken; eauto.
 Qed.
@@ -769,11 +787,13 @@ Proof.
   eexists. exists Δ. split; [reflexivity|]. apply eff_typed_cont; auto. simpl. eapply self_typed; eauto.
 Qed.
 
-Lemma act_Fwd s rs to from d :
-  teq T0 s -> prov_name None rs to -> client_ty Δ ∅ None from s ->
-  act_view Δ (P (FFwd to from d)) (action_of Async D (P (FFwd to from d))).
+Lemma act_Fwd_gen ps nx' s rs to from d :
+  ps <> [] -> Forall (fun q => prov_ty Δ q s) ps -> prov_name None rs to -> client_ty Δ ∅ None from s ->
+  act_view Δ (Proc ps (FFwd to from d) nx') (action_of Async D (Proc ps (FFwd to from d) nx')).
 Proof.
-  intros Hs Hto Hfrom. pose proof Hto as Hto'. apply prov_closed in Hto. destruct Hto as [Hto1 Hto2].
+  intros Hps Hprovs Hto Hfrom. pose proof Hto as Hto'. apply prov_closed in Hto. destruct Hto as [Hto1 Hto2].
+  assert (Hself : forall b rs', typed Δ ∅ None rs' s b -> proc_typed Δ (Proc ps b nx')).
+  { intros b rs' Hb. exists s, rs'. simpl. auto. }
   destruct (client_ann _ _ _ _ _ Hfrom) as [t0 [Hnt [Hnn Ht0]]].
   destruct (client_closed _ _ _ Hfrom) as [Hf1 [c [t [Hf2 [Hf3 Hf4]]]]].
   assert (Hfp : fwd_polarity D from = polarity_of t0).
@@ -795,7 +815,7 @@ Proof.
       replace (rule_eqb (m_rule m) RFWD && false) with false by (destruct (rule_eqb _ _); reflexivity).
       replace (rule_eqb (m_rule m) RGC && false) with false by (destruct (rule_eqb _ _); reflexivity).
       fold (payload m).
-      destruct (droppable_fwds_typed self (payload m) Δ (P (FFwd to from true)))
+      destruct (droppable_fwds_typed self (payload m) Δ (Proc ps (FFwd to from true) nx'))
         as [Δ' [ss [cs [p' [E [Hsub [Hdom [Hnew [Hlen [Hn [Hpv [Hbd Hsp]]]]]]]]]]]]; auto.
       { eapply payload_clients; eauto. }
       rewrite E. exists (Eff Finish ss cs [] []), Δ'. split; auto.
@@ -812,24 +832,33 @@ Proof.
           destruct u; simpl in Hrel2; try contradiction
         end.
       * (* RSND *) destruct Hrel2 as [Ha Hb].
-        eexists. exists Δ. split; [reflexivity|]. apply eff_typed_cont; auto. simpl. eapply self_typed; eauto.
+        eexists. exists Δ. split; [reflexivity|]. apply eff_typed_cont; auto. simpl. apply (Hself _ rs).
         eapply T_SendP; eauto; eapply client_ty_conv; eauto.
-      * (* RCLS *) eexists. exists Δ. split; [reflexivity|]. apply eff_typed_cont; auto. simpl. eapply self_typed; eauto.
+      * (* RCLS *) eexists. exists Δ. split; [reflexivity|]. apply eff_typed_cont; auto. simpl. apply (Hself _ rs).
         eapply T_Close; eauto.
-      * (* RCST *) eexists. exists Δ. split; [reflexivity|]. apply eff_typed_cont; auto. simpl. eapply self_typed; eauto.
+      * (* RCST *) eexists. exists Δ. split; [reflexivity|]. apply eff_typed_cont; auto. simpl. apply (Hself _ rs).
         eapply T_CastP; eauto; eapply client_ty_conv; eauto.
       * (* RSEL *)
         match goal with Hf : find_br (m_label m) _ = Some _ |- _ =>
           destruct (brs_rel_find _ _ _ _ _ Hrel2 Hf) as [A' [HA' Hteq']] end.
-        eexists. exists Δ. split; [reflexivity|]. apply eff_typed_cont; auto. simpl. eapply self_typed; eauto.
+        eexists. exists Δ. split; [reflexivity|]. apply eff_typed_cont; auto. simpl. apply (Hself _ rs).
         eapply T_SelP; eauto; eapply client_ty_conv; eauto.
   - (* negative: FWD request, or GC request *) rewrite Hf2.
     assert (Hneg : pol_of_ty D t Neg) by (eapply pol_from_head; [exact HX|exact Hw0|exact Epol]).
     apply AV_send; [|right; split; [in_body|destruct d; reflexivity]]. exists t. split; auto.
     destruct d; simpl; [exact Hneg|].
-    split; [exact Hneg|].
-    exists n. split; auto. apply self_prov. eapply teq_t; [exact Hs|apply teq_s; exact Hf4].
+    split; [exact Hneg|]. split; [exact Hps|].
+    eapply Forall_impl; [|exact Hprovs]. intros q Hq. simpl in Hq. eapply prov_ty_conv; [exact Hq|apply teq_s; exact Hf4].
 Qed.
+
+Lemma act_Fwd s rs to from d :
+  teq T0 s -> prov_name None rs to -> client_ty Δ ∅ None from s ->
+  act_view Δ (P (FFwd to from d)) (action_of Async D (P (FFwd to from d))).
+Proof.
+  intros Hs Hto Hfrom. apply (act_Fwd_gen [n] nx s rs); auto; try discriminate.
+  constructor; [|constructor]. apply self_prov. auto.
+Qed.
+
 
 Lemma act_Drop s rs c k T :
   teq T0 s -> client_ty Δ ∅ None c T -> typed Δ ∅ None rs s k ->
@@ -847,8 +876,8 @@ Proof.
   unfold eff_typed, eff_base. simpl. split; auto. split; auto.
   split. { intros k' Hk'. apply elem_of_list_singleton in Hk'. subst k'. exists nx. split; auto. lia. }
   split; [lia|]. split; auto.
-  exists n, s, rs. split; auto. split; [eapply prov_ty_weaken; eauto; apply self_prov; auto|].
-  simpl. eapply typed_weaken; eauto.
+  apply (proc_typed_single _ n s rs); [eapply prov_ty_weaken; eauto; apply self_prov; auto|].
+  eapply typed_weaken; eauto.
 Qed.
 
 Lemma act_Call s rs fn args pt :
@@ -900,7 +929,7 @@ Proof.
     eexists. exists Δ. split; [reflexivity|]. apply eff_typed_cont; auto. simpl.
     match goal with Hp : RtTyping.prov_ty _ _ (m_c1 m) _ |- _ =>
       destruct (prov_ty_conv _ _ _ _ Hp Hrel) as [c1 [t1 [Hc1 [Ht1 Hq1]]]] end.
-    exists (m_c1 m), A, (rs ∖ {[ident x]} ∪ {[""]}). split; auto. split; [exists c1, t1; auto|]. simpl.
+    apply (proc_typed_single _ (m_c1 m) A (rs ∖ {[ident x]} ∪ {[""]})); [exists c1, t1; auto|].
     apply tshadow; [apply Hbx | apply lookup_empty | exact Hk].
   - (* RFWD *) eexists. exists Δ. split; [reflexivity|]. eapply fwd_request_ok; eauto.
 Qed.
@@ -920,6 +949,50 @@ Proof.
   apply (tsubst _ _ _ _ _ _ _ _ A); [apply Hbx | eapply chan_ty_is_chan; eauto | discriminate | set_solver | exact Hk].
 Qed.
 
+Lemma act_Split s rs x y from k T :
+  teq T0 s -> client_ty Δ ∅ None from T -> binder x -> binder y -> ident x <> ident y ->
+  typed Δ (<[ident y := T]> (<[ident x := T]> ∅)) None (rs ∖ {[ident x]} ∖ {[ident y]}) s k ->
+  act_view Δ (P (FSplit x y from k)) (action_of Async D (P (FSplit x y from k))).
+Proof.
+  intros Hs Hfrom Hbx Hby Hne Hk.
+  destruct (client_closed _ _ _ Hfrom) as [Hf1 [cf [t [Hf2 [Hf3 Hf4]]]]].
+  compute_action. apply AV_internal. intros self Hfree.
+  assert (Hfr1 : Δ !! (self ++ [nx]) = None) by (apply Hfree; simpl; lia).
+  assert (Hfr2 : Δ !! (self ++ [S nx]) = None) by (apply Hfree; simpl; lia).
+  unfold internal_effect, fresh_chan. simpl.
+  set (k1 := self ++ [nx]). set (k2 := self ++ [S nx]).
+  set (c1 := mkName (ident x) false (pol from) (nty from) (Some k1)).
+  set (c2 := mkName (ident y) false (pol from) (nty from) (Some k2)).
+  assert (Hk12 : k1 <> k2) by (unfold k1, k2; intros E; apply app_inv_head in E; injection E; lia).
+  set (Δ' := <[k2 := T]> (<[k1 := T]> Δ)).
+  assert (Hsub : Δ ⊆ Δ').
+  { unfold Δ'. etrans; [apply (insert_subseteq Δ k1 T Hfr1)|]. apply insert_subseteq.
+    rewrite lookup_insert_ne by auto. exact Hfr2. }
+  eexists. exists Δ'. split; [reflexivity|].
+  unfold eff_typed, eff_base. simpl. split; auto.
+  split. { intros k' Hk'. unfold Δ' in Hk'.
+           destruct (decide (k2 = k')) as [<-|N2]; [right; set_solver|]. rewrite lookup_insert_ne in Hk' by auto.
+           destruct (decide (k1 = k')) as [<-|N1]; [right; set_solver|]. rewrite lookup_insert_ne in Hk' by auto. auto. }
+  split. { intros k' Hk'. apply elem_of_cons in Hk'. destruct Hk' as [->|Hk'].
+           - exists nx. split; auto. lia.
+           - apply elem_of_list_singleton in Hk'. subst k'. exists (S nx). split; auto. lia. }
+  split; [lia|]. split.
+  - apply (proc_typed_single _ n s (rs ∖ {[ident x]} ∖ {[ident y]})); [eapply prov_ty_weaken; eauto; apply self_prov; auto|].
+    apply (tsubst _ _ _ _ _ _ _ _ T);
+      [apply Hby | split; simpl; auto; exists k2, T; unfold Δ'; rewrite lookup_insert; auto | discriminate | set_solver | ].
+    apply (tsubst _ _ _ _ _ _ _ _ T);
+      [apply Hbx | split; simpl; auto; exists k1, T; unfold Δ'; rewrite lookup_insert_ne by auto; rewrite lookup_insert; auto
+       | discriminate | set_solver | ].
+    rewrite (insert_commute _ (ident x) (ident y)) by auto. eapply typed_weaken; eauto.
+  - constructor; [|constructor]. simpl. exists T, {[ ident from ]}. simpl. split; [discriminate|]. split.
+    + constructor; [|constructor; [|constructor]].
+      * exists k1, T. simpl. unfold Δ'. rewrite lookup_insert_ne by auto. rewrite lookup_insert. auto.
+      * exists k2, T. simpl. unfold Δ'. rewrite lookup_insert. auto.
+    + eapply T_Fwd.
+      * split; auto. left. simpl. split; auto. set_solver.
+      * eapply client_ty_weaken; eauto.
+Qed.
+
 Lemma act_Print s rs l k :
   teq T0 s -> typed Δ ∅ None rs s k ->
   act_view Δ (P (FPrint l k)) (action_of Async D (P (FPrint l k))).
@@ -931,30 +1004,190 @@ Qed.
 
 End Act.
 
+
+(* ------------------------------------------------------------------ DUP: a process with several providers duplicates itself *)
+Definition row_typed (Δ' : gmap cid sty) (t : sty) (row : list name) : Prop :=
+  Forall (fun c => is_self c = false /\ exists e, chan c = Some e /\ Δ' !! e = Some t) row.
+
+Lemma row_typed_weaken Δ1 Δ2 t row : Δ1 ⊆ Δ2 -> row_typed Δ1 t row -> row_typed Δ2 t row.
+Proof.
+  intros Hs H. eapply Forall_impl; [|exact H]. intros c [H1 [e [H2 H3]]]. split; auto.
+  exists e. split; auto. eapply lookup_weaken; eauto.
+Qed.
+
+Lemma fresh_row_typed self fn t : forall n Δ p,
+  ns_free Δ self p ->
+  exists Δ' row p', fresh_row self p fn n = (row, p') /\
+    Δ ⊆ Δ' /\
+    (forall k, is_Some (Δ' !! k) -> is_Some (Δ !! k) \/ k ∈ cids_of row) /\
+    (forall k, k ∈ cids_of row -> exists j, k = self ++ [j] /\ (pr_next p <= j < pr_next p + n)%nat) /\
+    length row = n /\ length (cids_of row) = n /\
+    pr_next p' = (pr_next p + n)%nat /\ ns_free Δ' self p' /\ row_typed Δ' t row.
+Proof.
+  induction n as [|n IH]; intros Δ p Hfree; simpl.
+  - exists Δ, [], p. split; auto. split; auto. split; auto.
+    split; [intros k Hk; apply elem_of_nil in Hk; contradiction|].
+    repeat split; auto; try lia. replace (pr_next p + 0)%nat with (pr_next p) by lia. auto. constructor.
+  - unfold fresh_chan. simpl.
+    set (k := self ++ [pr_next p]).
+    set (p1 := Proc (pr_provs p) (pr_body0 p) (S (pr_next p))).
+    assert (Hk : Δ !! k = None) by (apply Hfree; lia).
+    assert (Hsub : Δ ⊆ <[k := t]> Δ) by (apply insert_subseteq; auto).
+    destruct (IH (<[k := t]> Δ) p1) as [Δ' [row [p' [E [Hs' [Hdom [Hnew [Hlen [Hlen2 [Hn [Hfr' Hrow]]]]]]]]]]].
+    + intros j Hj. simpl in Hj. rewrite lookup_insert_ne; [apply Hfree; lia|].
+      unfold k. intros E. apply app_inv_head in E. injection E as E. lia.
+    + rewrite E. eexists Δ', _, p'. split; [reflexivity|].
+      split; [etrans; eauto|].
+      split. { intros k' Hk'. apply Hdom in Hk'. simpl. destruct Hk' as [Hk'|Hk']; [|right; set_solver].
+               destruct (decide (k = k')) as [<-|Hne]; [right; set_solver|]. rewrite lookup_insert_ne in Hk' by auto. auto. }
+      split. { simpl. intros k' Hk'. apply elem_of_cons in Hk'. destruct Hk' as [->|Hk'].
+               - exists (pr_next p). split; auto. lia.
+               - destruct (Hnew k' Hk') as [j [Hj1 Hj2]]. exists j. split; auto. simpl in Hj2. lia. }
+      split; [simpl; lia|]. split; [simpl; lia|]. split; [rewrite Hn; simpl; lia|]. split; auto.
+      constructor; auto. simpl. split; auto. exists k. split; auto.
+      eapply lookup_weaken; eauto. apply lookup_insert.
+Qed.
+
+Definition matrix_typed (Δ' : gmap cid sty) (n : nat) (fns : list name) (rows : list (list name)) : Prop :=
+  Forall2 (fun fn row => length row = n /\ exists t, chan_ty Δ' fn t /\ row_typed Δ' t row) fns rows.
+
+Lemma fresh_matrix_typed self n : forall fns Δ p,
+  (forall fn, In fn fns -> exists t, chan_ty Δ fn t) -> ns_free Δ self p ->
+  exists Δ' rows p', fresh_matrix self p fns n = (rows, p') /\
+    Δ ⊆ Δ' /\
+    (forall k, is_Some (Δ' !! k) -> is_Some (Δ !! k) \/ k ∈ flat_map cids_of rows) /\
+    (forall k, k ∈ flat_map cids_of rows ->
+       exists j, k = self ++ [j] /\ (pr_next p <= j < pr_next p + length (flat_map cids_of rows))%nat) /\
+    matrix_typed Δ' n fns rows.
+Proof.
+  induction fns as [|fn fns IH]; intros Δ p Hfns Hfree; simpl.
+  - exists Δ, [], p. split; auto. split; auto. split; auto.
+    split; [intros k Hk; apply elem_of_nil in Hk; contradiction|]. constructor.
+  - destruct (Hfns fn (or_introl eq_refl)) as [t Ht].
+    destruct (fresh_row_typed self fn t n Δ p Hfree) as [Δ1 [row [p1 [E1 [Hs1 [Hd1 [Hn1 [Hl1 [Hl1' [Hp1 [Hfr1 Hr1]]]]]]]]]]].
+    destruct (IH Δ1 p1) as [Δ' [rows [p' [E [Hs' [Hdom [Hnew Hm]]]]]]]; auto.
+    { intros fn' Hin. destruct (Hfns fn' (or_intror Hin)) as [t' Ht']. exists t'. eapply client_ty_weaken; eauto. }
+    rewrite E1, E. eexists Δ', _, p'. split; [reflexivity|].
+    split; [etrans; eauto|].
+    split. { intros k Hk. simpl. apply Hdom in Hk. destruct Hk as [Hk|Hk]; [|right; set_solver].
+             apply Hd1 in Hk. destruct Hk; auto. right. set_solver. }
+    split. { simpl. intros k Hk. rewrite app_length, Hl1'. apply elem_of_app in Hk. destruct Hk as [Hk|Hk].
+             - destruct (Hn1 k Hk) as [j [Hj1 Hj2]]. exists j. split; auto. lia.
+             - destruct (Hnew k Hk) as [j [Hj1 Hj2]]. exists j. split; auto. lia. }
+    constructor; auto.
+    split; auto. exists t. split; [eapply client_ty_weaken; [|exact Ht]; etrans; eauto|].
+    eapply row_typed_weaken; eauto.
+Qed.
+
+Lemma subst_col_typed Δ' n rs s i : forall fns rows b,
+  matrix_typed Δ' n fns rows -> (i < n)%nat ->
+  typed Δ' ∅ None rs s b -> typed Δ' ∅ None rs s (subst_col fns rows i b).
+Proof.
+  intros fns rows b Hm Hi. revert b. induction Hm as [|fn row fns rows [Hl [t [Hfn Hrow]]] Hm IH]; intros b Hb; simpl; auto.
+  destruct (nth_error row i) as [c|] eqn:En; [|exfalso; apply nth_error_None in En; lia].
+  apply IH.
+  apply nth_error_In in En. unfold row_typed in Hrow. rewrite Forall_forall in Hrow.
+  destruct (Hrow c En) as [Hc1 [e [Hc2 Hc3]]].
+  destruct (client_closed _ _ _ Hfn) as [_ [d [t0 [Hd1 [Hd2 Hd3]]]]].
+  eapply (typed_subst_chan D F teq Hteq Δ' ∅ None rs s b fn c d e); eauto.
+  intros T HT. rewrite Hd2 in HT. injection HT as <-. exists t. split; auto.
+Qed.
+
+Lemma dup_fwds_typed Δ' n fns rows :
+  matrix_typed Δ' n fns rows -> (2 <= n)%nat ->
+  Forall (fun sp => proc_typed Δ' (Proc (sp_provs sp) (sp_body sp) 0))
+         (map (fun '(fn, row) => Spawn row (FFwd (mkName (ident fn) true None (nty fn) None) fn false)) (combine fns rows)).
+Proof.
+  intros Hm Hlen. induction Hm as [|fn row fns rows [Hl [t [Hfn Hrow]]] Hm IH]; simpl; [constructor|].
+  constructor; auto. simpl. exists t, {[ ident fn ]}. simpl.
+  split; [destruct row; simpl in Hl; [lia|discriminate]|]. split.
+  - unfold row_typed in Hrow. eapply List.Forall_impl; [|exact Hrow]. intros c [Hc1 [e [Hc2 Hc3]]].
+    exists e, t. split; [exact Hc2|]. split; [exact Hc3|]. apply (teq_refl D teq Hteq).
+  - eapply T_Fwd; [|exact Hfn]. split; auto. left. simpl. split; auto. set_solver.
+Qed.
+
+Lemma dup_typed Δ self p s rs :
+  (2 <= length (pr_provs p))%nat -> Forall (fun q => prov_ty Δ q s) (pr_provs p) ->
+  typed Δ ∅ None rs s (pr_body0 p) -> ns_free Δ self p ->
+  exists e Δ', dup_effect self p = EOk e /\ eff_typed Δ Δ' self p e.
+Proof.
+  intros Hlen Hprovs Hty Hfree. unfold dup_effect.
+  destruct (length (pr_provs p) =? 1)%nat eqn:E1; [apply Nat.eqb_eq in E1; lia|].
+  destruct (fresh_matrix_typed self (length (pr_provs p)) (free_names (pr_body0 p)) Δ p)
+    as [Δ' [rows [p' [E [Hsub [Hdom [Hnew Hm]]]]]]]; auto.
+  { intros fn Hin. eapply free_names_closed; eauto. }
+  rewrite E. eexists. exists Δ'. split; [reflexivity|].
+  unfold eff_typed, eff_base. simpl. split; auto. split; auto. split; auto. split; auto. split; auto.
+  apply Forall_app. split.
+  - (* the copies *)
+    apply Forall_forall. intros sp Hsp. apply elem_of_list_In in Hsp.
+    apply elem_of_lookup_imap in Hsp. destruct Hsp as [i [pr [-> Hi]]]. simpl.
+    apply (proc_typed_single _ pr s rs).
+    + eapply prov_ty_weaken; eauto. eapply Forall_forall in Hprovs; [exact Hprovs|].
+      apply elem_of_list_In. eapply elem_of_list_lookup_2; eauto.
+    + eapply subst_col_typed; eauto; [eapply lookup_lt_Some; eauto|]. eapply typed_weaken; eauto.
+  - (* the forwards that feed the copies *)
+    eapply dup_fwds_typed; eauto.
+Qed.
+
+(* with several providers every form but the forward duplicates first *)
+Lemma multi_action Δ n1 n2 rest nx s rs b :
+  Forall (fun q => prov_ty Δ q s) (n1 :: n2 :: rest) -> typed Δ ∅ None rs s b ->
+  body_is_fwd b = false -> action_of Async D (Proc (n1 :: n2 :: rest) b nx) = ADup.
+Proof.
+  intros Hprovs Hty Hnf.
+  assert (Hk : exists k, chan n1 = Some k).
+  { inversion Hprovs as [|? ? [k [t [Hk _]]] _]; subst. eauto. }
+  destruct Hk as [k1 Hk1].
+  inversion Hty; subst; simpl in Hnf; try discriminate;
+    repeat match goal with
+           | H : prov_name None _ _ |- _ => apply prov_closed in H; destruct H as [? ?]
+           | H : RtTyping.client_ty _ _ ∅ None _ _ |- _ =>
+             let c := fresh "c" in let t := fresh "t" in
+             apply client_closed in H; destruct H as [? [c [t [? [? ?]]]]]
+           end;
+    unfold action_of, send_on, recv_on, internal, multi, self_chan, self_name_of, prov0; simpl;
+    repeat match goal with
+           | H : is_self ?x = _ |- context [is_self ?x] => rewrite H
+           | H : chan ?x = _ |- context [chan ?x] => rewrite H
+           end; simpl; reflexivity.
+Qed.
+
 Lemma typed_action Δ p : proc_typed Δ p -> act_view Δ p (action_of Async D p).
 Proof.
-  intros [n [s [rs [Hprovs [[k0 [T0 [Hk0 [HT0 Hs]]]] Hty]]]]].
-  destruct p as [provs body nx]. simpl in *. subst provs.
-  inversion Hty; subst.
-  - eapply act_SendP; eauto.
-  - eapply act_SendC; eauto.
-  - eapply act_RecvP; eauto.
-  - eapply act_RecvC; eauto.
-  - eapply act_SelP; eauto.
-  - eapply act_SelC; eauto.
-  - eapply act_CaseP; eauto.
-  - eapply act_CaseC; eauto.
-  - eapply act_New; eauto.
-  - eapply act_Close; eauto.
-  - eapply act_Wait; eauto.
-  - eapply act_Fwd; eauto.
-  - eapply act_Drop; eauto.
-  - eapply act_Call; eauto.
-  - eapply act_CastP; eauto.
-  - eapply act_CastC; eauto.
-  - eapply act_ShiftP; eauto.
-  - eapply act_ShiftC; eauto.
-  - eapply act_Print; eauto.
+  intros [s [rs [Hne [Hprovs Hty]]]].
+  destruct p as [provs body nx]. simpl in *.
+  destruct provs as [|n [|n2 rest]]; [contradiction| |].
+  - (* one provider *)
+    inversion Hprovs as [|? ? [k0 [T0 [Hk0 [HT0 Hs]]]] _]; subst.
+    inversion Hty; subst.
+    + eapply act_SendP; eauto.
+    + eapply act_SendC; eauto.
+    + eapply act_RecvP; eauto.
+    + eapply act_RecvC; eauto.
+    + eapply act_SelP; eauto.
+    + eapply act_SelC; eauto.
+    + eapply act_CaseP; eauto.
+    + eapply act_CaseC; eauto.
+    + eapply act_New; eauto.
+    + eapply act_Close; eauto.
+    + eapply act_Wait; eauto.
+    + eapply act_Fwd; eauto.
+    + eapply act_Drop; eauto.
+    + eapply act_Call; eauto.
+    + eapply act_CastP; eauto.
+    + eapply act_CastC; eauto.
+    + eapply act_ShiftP; eauto.
+    + eapply act_ShiftC; eauto.
+    + eapply act_Split; eauto.
+    + eapply act_Print; eauto.
+  - (* several providers *)
+    destruct (body_is_fwd body) eqn:Ef.
+    + destruct body; try discriminate. inversion Hty; subst.
+      inversion Hprovs as [|? ? [k0 [T0 [Hk0 [HT0 _]]]] _]; subst.
+      eapply act_Fwd_gen; eauto.
+    + rewrite (multi_action Δ n n2 rest nx s rs body Hprovs Hty Ef). apply AV_dup. intros self Hfree.
+      eapply (dup_typed Δ self (Proc (n :: n2 :: rest) body nx) s rs); eauto. simpl. lia.
 Qed.
 
 (* ------------------------------------------------------------------ preservation and absence of errors, one step
@@ -989,7 +1222,13 @@ Proof.
   pose proof (typed_action_md md Δ p Hnp (Hp _ _ Ep)) as Hv.
   pose proof (ns_fresh_free Δ c self p Hf Ep) as Hfree.
   remember (action_of md D p) as a eqn:Ea. symmetry in Ea.
-  destruct Hv as [k m Hmsg Hside|k Hk Hside Hrecv|Hint].
+  destruct Hv as [k m Hmsg Hside|k Hk Hside Hrecv|Hint|Hdup].
+  4: { (* duplicate *)
+    destruct (Hdup self Hfree) as [e [Δ' [He Heff]]].
+    right. rewrite He. simpl.
+    exists (apply_effect c self p e), Δ'. split; auto.
+    split; [destruct Heff as [Hsub _]; exact Hsub|].
+    eapply apply_effect_typed; eauto. }
   2: { (* receive *)
     destruct (Hd k Hk) as [st Hst]. rewrite Hst.
     destruct (ch_buf st) as [m|] eqn:Eb.
@@ -1027,8 +1266,8 @@ Proof.
   destruct (procs c !! r) as [pr|] eqn:Epr; [|left; reflexivity].
   pose proof (typed_action_md Sync Δ ps eq_refl (Hp _ _ Eps)) as Hvs.
   pose proof (typed_action_md Sync Δ pr eq_refl (Hp _ _ Epr)) as Hvr.
-  destruct Hvs as [k m Hmsg _|k Hk _ _|_]; try (left; reflexivity).
-  destruct Hvr as [k' m' _ _|k' Hk' _ Hrecv|_]; try (left; reflexivity).
+  destruct Hvs as [k m Hmsg _|k Hk _ _|_|_]; try (left; reflexivity).
+  destruct Hvr as [k' m' _ _|k' Hk' _ Hrecv|_|_]; try (left; reflexivity).
   destruct (bool_decide (k = k')) eqn:Ek; [|left; reflexivity]. apply bool_decide_eq_true in Ek. subst k'.
   destruct (chans c !! k) as [st|]; [|left; reflexivity].
   destruct (ch_closed st); [left; reflexivity|].
